@@ -213,7 +213,7 @@ PROPS = {
     "C09": P("proof", [("h2s", 100, 5000), ("sfh2f", 1500, 60000), ("expand", 200, 10000), ("chosenu", 40, 2000)],
              ["H2C.h2s", "H2C.h2su", "S.h2f", "XMD.*"], rule=RULE,
              trusted=["crypto/sha256 (parameter H)"]),
-    "C10": P("exploration", [("history", 12, 400), ("historylong", 0, 12)], ["H.*"], rule=RULE +
+    "C10": P("proof", [("history", 12, 400), ("historylong", 0, 12)], ["H.*"], rule=RULE +
              "; a history is a sequence of 40 (long: 400) API calls over pools of 4 elements and 4 scalars with 40% aliased choices, every pool variable observed after every step"),
     "C11": P("proof", [("map", 250, 12000), ("chosenu", 40, 2000)], ["PT.sswu", "PT.map", "PT.iso", "H2C.e2gu"], rule=RULE),
     "C12": P("proof", [("field", 4000, 250000)], ["F.*"], rule=RULE),
